@@ -37,6 +37,11 @@ def load_unit(name):
     return copy.deepcopy(mod.UNIT)
 
 
+def unit_sources(name):
+    u = load_unit(name)
+    return [u['source']] + list(u.get('extra_sources', []))
+
+
 def emit_stub(name, st):
     """C text of an assumed-contract stub declared in a unit."""
     out = '%s %s(%s)\n' % (st.get('ret', 'void'), name, st.get('params', 'void'))
@@ -183,6 +188,8 @@ def prove_function(uname, t, cfile, qual, spec, tier, extra_replace):
         cb += ['--cvc5']
     elif solver == 'z3':
         cb += ['--z3']
+    elif solver == 'cadical':
+        cb += ['--sat-solver', 'cadical']
     cap = spec.get('timeout', {}).get(tier) if isinstance(spec.get('timeout'), dict) else None
     cap = cap or (300 if tier == 'quick' else 1800)
     # the number of object bits dominates solver time; start small and widen only when cbmc asks for it
